@@ -464,4 +464,106 @@ theorem bchPolyMod_xor (a b : List Nat) (h : a.length = b.length) :
   conv_lhs => rw [this]
   ac_rfl
 
+/-! ### uniqueness of the checksum: the trailing symbols are determined by verification -/
+
+theorem shl5_xor (a x : Nat) (hx : x < 32) : (a <<< 5) ^^^ x = a * 32 + x := by
+  apply Nat.eq_of_testBit_eq
+  intro j
+  have e : a * 32 + x = 2 ^ 5 * a + x := by ring
+  rw [e, Nat.testBit_two_pow_mul_add a (by omega : x < 2 ^ 5), Nat.testBit_xor, Nat.testBit_shiftLeft]
+  by_cases h : j < 5
+  · have h' : ¬ j ≥ 5 := by omega
+    simp [h, h']
+  · have h' : j ≥ 5 := by omega
+    have hxj : x.testBit j = false :=
+      Nat.testBit_lt_two_pow (Nat.lt_of_lt_of_le (by omega : x < 2 ^ 5) (Nat.pow_le_pow_right (by omega) h'))
+    simp [h, h', hxj]
+
+theorem list_length_six {α} (t : List α) (h : t.length = 6) : ∃ a b c d e f, t = [a, b, c, d, e, f] := by
+  rcases t with _ | ⟨a, _ | ⟨b, _ | ⟨c, _ | ⟨d, _ | ⟨e, _ | ⟨f, _ | ⟨g, t⟩⟩⟩⟩⟩⟩⟩ <;>
+    simp at h
+  exact ⟨a, b, c, d, e, f, rfl⟩
+
+theorem list_length_eight {α} (t : List α) (h : t.length = 8) :
+    ∃ a b c d e f g i, t = [a, b, c, d, e, f, g, i] := by
+  rcases t with _ | ⟨a, _ | ⟨b, _ | ⟨c, _ | ⟨d, _ | ⟨e, _ | ⟨f, _ | ⟨g, _ | ⟨i, _ | ⟨j, t⟩⟩⟩⟩⟩⟩⟩⟩⟩ <;>
+    simp at h
+  exact ⟨a, b, c, d, e, f, g, i, rfl⟩
+
+/-- unpacking a packed string of six 5-bit symbols gives the symbols back. -/
+theorem unpack_pack_six (c0 c1 c2 c3 c4 c5 : Nat) (h0 : c0 < 32) (h1 : c1 < 32) (h2 : c2 < 32)
+    (h3 : c3 < 32) (h4 : c4 < 32) (h5 : c5 < 32) (pm : Nat) (hpm : pack5 0 [c0, c1, c2, c3, c4, c5] = pm) :
+    [(pm >>> 25) &&& 31, (pm >>> 20) &&& 31, (pm >>> 15) &&& 31, (pm >>> 10) &&& 31,
+        (pm >>> 5) &&& 31, (pm >>> 0) &&& 31] = [c0, c1, c2, c3, c4, c5] := by
+  simp only [pack5, List.foldl_cons, List.foldl_nil] at hpm
+  rw [shl5_xor _ _ h0, shl5_xor _ _ h1, shl5_xor _ _ h2, shl5_xor _ _ h3, shl5_xor _ _ h4,
+    shl5_xor _ _ h5] at hpm
+  have h31 : ∀ x, x &&& 31 = x % 32 := fun x => Nat.and_two_pow_sub_one_eq_mod x 5
+  simp only [h31, Nat.shiftRight_eq_div_pow]
+  subst hpm
+  simp only [List.cons.injEq, and_true]
+  omega
+
+theorem unpack_pack_eight (c0 c1 c2 c3 c4 c5 c6 c7 : Nat) (h0 : c0 < 32) (h1 : c1 < 32) (h2 : c2 < 32)
+    (h3 : c3 < 32) (h4 : c4 < 32) (h5 : c5 < 32) (h6 : c6 < 32) (h7 : c7 < 32) (pm : Nat)
+    (hpm : pack5 0 [c0, c1, c2, c3, c4, c5, c6, c7] = pm) :
+    [(pm >>> 35) &&& 31, (pm >>> 30) &&& 31, (pm >>> 25) &&& 31, (pm >>> 20) &&& 31,
+        (pm >>> 15) &&& 31, (pm >>> 10) &&& 31, (pm >>> 5) &&& 31, (pm >>> 0) &&& 31]
+      = [c0, c1, c2, c3, c4, c5, c6, c7] := by
+  simp only [pack5, List.foldl_cons, List.foldl_nil] at hpm
+  rw [shl5_xor _ _ h0, shl5_xor _ _ h1, shl5_xor _ _ h2, shl5_xor _ _ h3, shl5_xor _ _ h4,
+    shl5_xor _ _ h5, shl5_xor _ _ h6, shl5_xor _ _ h7] at hpm
+  have h31 : ∀ x, x &&& 31 = x % 32 := fun x => Nat.and_two_pow_sub_one_eq_mod x 5
+  simp only [h31, Nat.shiftRight_eq_div_pow]
+  subst hpm
+  simp only [List.cons.injEq, and_true]
+  omega
+
+/-- the trailing `(W+5)/5` symbols that steer the register from `c` to `k` pack to a value that is
+determined by `c` and `k`. -/
+theorem pm_tail_unique (W : Nat) (G : Nat → Nat) (c k : Nat) (t : List Nat)
+    (hlen : 5 * t.length = W + 5) (ht : ∀ x ∈ t, x < 32) (h : pmRun W G c t = k) :
+    pack5 0 t = pmRun W G c (List.replicate t.length 0) ^^^ k := by
+  have htail := pmRun_tail W G t c 0 (by omega) (by rw [hlen]; simp) ht
+  rw [Nat.xor_zero, h] at htail
+  rw [htail, ← Nat.xor_assoc, Nat.xor_self, Nat.zero_xor]
+
+/-- **Bech32 / Bech32m checksum uniqueness**: six trailing symbols that make the string verify are
+the checksum of what precedes them. -/
+theorem bech32Verify_unique (hrp : List Char) (data t : List Nat) (m : Bool) (hl : t.length = 6)
+    (ht : ∀ x ∈ t, x < 32) (h : bech32Verify hrp (data ++ t) m = true) :
+    t = bech32Checksum hrp data m := by
+  unfold bech32Verify at h
+  rw [beq_iff_eq, ← List.append_assoc] at h
+  rw [bech32Checksum_eq]
+  generalize bech32HrpExpand hrp ++ data = v at h ⊢
+  simp only [bech32PolyMod_eq, pmRun_append] at h ⊢
+  have hp := pm_tail_unique 25 bech32G _ _ t (by rw [hl]) ht h
+  rw [hl] at hp
+  obtain ⟨c0, c1, c2, c3, c4, c5, rfl⟩ := list_length_six t hl
+  have hm : ∀ x ∈ [c0, c1, c2, c3, c4, c5], x < 32 := ht
+  simp only [List.mem_cons, List.mem_nil_iff, or_false, forall_eq_or_imp, forall_eq] at hm
+  obtain ⟨h0, h1, h2, h3, h4, h5⟩ := hm
+  exact (unpack_pack_six c0 c1 c2 c3 c4 c5 h0 h1 h2 h3 h4 h5 _ hp).symm
+
+/-- **CashAddr checksum uniqueness.** -/
+theorem bchVerify_unique (hrp : List Char) (data t : List Nat) (hl : t.length = 8)
+    (ht : ∀ x ∈ t, x < 32) (h : bchVerify hrp (data ++ t) = true) :
+    t = bchChecksum hrp data := by
+  unfold bchVerify at h
+  rw [beq_iff_eq, ← List.append_assoc] at h
+  rw [bchChecksum_eq]
+  generalize bchHrpExpand hrp ++ data = v at h ⊢
+  simp only [bchPolyMod_eq, pmRun_append] at h ⊢
+  have h' : pmRun 35 bchG (pmRun 35 bchG 1 v) t = 1 := by
+    have := congrArg (· ^^^ 1) h
+    simpa [Nat.xor_assoc] using this
+  have hp := pm_tail_unique 35 bchG _ _ t (by rw [hl]) ht h'
+  rw [hl] at hp
+  obtain ⟨c0, c1, c2, c3, c4, c5, c6, c7, rfl⟩ := list_length_eight t hl
+  have hm : ∀ x ∈ [c0, c1, c2, c3, c4, c5, c6, c7], x < 32 := ht
+  simp only [List.mem_cons, List.mem_nil_iff, or_false, forall_eq_or_imp, forall_eq] at hm
+  obtain ⟨h0, h1, h2, h3, h4, h5, h6, h7⟩ := hm
+  exact (unpack_pack_eight c0 c1 c2 c3 c4 c5 c6 c7 h0 h1 h2 h3 h4 h5 h6 h7 _ hp).symm
+
 end BipVerif.Model
